@@ -39,6 +39,11 @@ func NewQueue[T any]() *Queue[T] {
 
 // Len returns the total number of items in the queue
 func (q *Queue[T]) Len() int {
+	// the two counters must be read as a pair: with an Enqueue+Dequeue or a Purge between
+	// the two loads the difference is negative
+	q.mx.RLock()
+	defer q.mx.RUnlock()
+
 	writeCount := q.writeCount.Load()
 	readCount := q.readCount.Load()
 
